@@ -49,7 +49,7 @@ func init() {
 		[]string{"alias behaviour inside math/big (trusted)"},
 		"math/big methods are alias-safe when they can see the aliasing (same *big.Int or same backing array)", "hand summaries of (*BigInt).inner* / noescape; updateInner(src) copies src")
 	prop("C06", "Results depend only on operands and context; inputs are never modified",
-		[]string{"C06.R1", "C06.R2", "C06.R3", "C06.R4", "C06.R5", "C06.R6", "C06.R7", "C06.R8"},
+		[]string{"C06.R1", "C06.R2", "C06.R3", "C06.R4", "C06.R5", "C06.R6", "C06.R7", "C06.R8", "C06.R9"},
 		"Decides for all inputs and histories: destinations of exported operations are write-only until assigned and completely assigned (Form, Negative, Exponent, Coeff) on every result-delivering return; the mod-set through every operand-role parameter and through the Context is empty; pointers into package-level tables and constants never reach a written position outside initialisation; every package-level variable is init-only.",
 		[]string{"nothing numeric is needed for this property"},
 		"a Condition carrying a System* flag always becomes an error (C03.R1/R3), so such returns need not deliver a complete value", "math/big mod/ref table", "hand summaries of the unsafe helpers")
@@ -74,7 +74,7 @@ func init() {
 		"Decides only structure: Sqrt's final rounding runs with Precision = c.Precision and Rounding = half-even on a working context of larger precision; Cbrt returns zero flags only under operand == d³; both take specials from rootSpecials; their loops are bounded and their wrapper errors surfaced.",
 		[]string{"correct rounding of Sqrt and the 1-ulp bound of Cbrt: real-analysis error bounds of Newton iterations with tuned guard digits — no sound static argument in reach"})
 	prop("C12", "Exp, Ln, Log10 and Pow are accurate to one unit in the last place",
-		[]string{"C12.R1", "C12.R2", "C12.R3", "C12.R4", "C04.R4", "C03.R5", "C06.R7"},
+		[]string{"C12.R1", "C12.R2", "C12.R3", "C12.R4", "C06.R9", "C04.R4", "C03.R5", "C06.R7"},
 		"Decides: every digit of the ln 10 and 1/ln 10 literals (≈2200 each; the suite uses ≤ 50) equals an independent big-integer computation; the precision table doubles from 1 and is fetched at the working precision; the exact-by-definition shortcuts (exp 0, ln 1, x**0, integer exponents) exist with zero flags; overflow/underflow reports are confined to their guards.",
 		[]string{"one-ulp accuracy: series truncation and guard-digit sufficiency are statements about real numbers"})
 	prop("C13", "Text and binary encodings round-trip every Decimal exactly",
